@@ -401,6 +401,14 @@ pub fn op_elg(a: &[&str]) -> String {
             let r1 = ct.decrypt_u32(&sk);
             let r2 = sk.decrypt_u32(&ct);
             if r1 != r2 { return "variant-mismatch".into() }
+            // the same target decoded through the configurable instance returned by `decrypt` (threads, batch size)
+            let mut d = ct.decrypt(&sk);
+            if d.num_threads(std::num::NonZeroUsize::new(4).unwrap()).is_err() { return "variant-mismatch:threads".into() }
+            let r3 = d.decode_u32();
+            let mut d = sk.decrypt(&ct);
+            if d.set_compression_batch_size(std::num::NonZeroUsize::new(33).unwrap()).is_err() { return "variant-mismatch:batch".into() }
+            let r4 = d.decode_u32();
+            if r3 != r1 || r4 != r1 { return format!("variant-mismatch:{:?}:{:?}:{:?}", r1, r3, r4) }
             match r1 { Some(x) => format!("some:{}", x), None => "none".into() }
         }
         ["op", ty, op, x, y] => match (*ty, *op) {
